@@ -349,23 +349,25 @@ package database
 //@ func candidateLimit
 //@   pure
 //@   opt overflow yes
-//@   ensures[C10.candidate-limit] (limit <= 0 ==> result == 0) && (0 < limit && limit <= 4611686018427387903 ==> result == 2 * limit) && (limit > 4611686018427387903 ==> result == 9223372036854775807)
+//@   ensures[C10.candidate-limit] result == candLimit(limit)
+//@ pure func candLimit(l int) int = l <= 0 ? 0 : (l <= 4611686018427387903 ? 2 * l : 9223372036854775807)
 //@ func (*Database).performFuzzySearch
 //@   modifies nothing
 //@   ensures[C01.fuzzy-ok] fresh(result) && resultsOK(db, result) && sortedDesc(result)
-//@   ensures[C01.fuzzy-bound] 0 <= options.Limit && options.Limit <= 4611686018427387903 ==> len(result) <= 2 * options.Limit
+//@   ensures[C01.fuzzy-bound] len(result) <= candLimit(options.Limit)
 //@   ensures[C01.fuzzy-score-range] forall k int :: 0 <= k && k < len(result) ==> 0.0 <= result[k].Score && result[k].Score <= 1.0
 //@   ensures[C04.fuzzy-gates] gatesOK(result, options)
 //@   ensures[C07.fuzzy-threshold] options.FuzzyThreshold != 0 ==> (forall k int :: 0 <= k && k < len(result) ==> result[k].Score >= normFuzzy(options.FuzzyThreshold))
+//@   hint[C07.never-starved] return options.FuzzyThreshold == 0 && options.Limit > 0 && len(results) == 0 ==> (forall j int :: 0 <= j && j < len(matches) ==> !(platOK(&db.Commands[matches[j].Index], options) && pipeOK(&db.Commands[matches[j].Index], options)))
 //@ loop 1
 //@   invariant len(targets) == len(db.Commands) && fresh(targets)
 //@ loop 2
-//@   invariant fresh(results) && len(results) <= $i && len(targets) == len(db.Commands)
-//@   invariant 0 <= options.Limit && options.Limit <= 4611686018427387903 ==> $i <= 2 * options.Limit
+//@   invariant fresh(results) && len(results) <= $i && len(targets) == len(db.Commands) && len(results) <= candLimit(options.Limit)
 //@   invariant resultsOK(db, results) && sortedDesc(results) && gatesOK(results, options)
 //@   invariant forall k, j int :: 0 <= k && k < len(results) && $i <= j && j < len(matches) ==> cmdIdx(db, results[k].Command) != matches[j].Index && results[k].Score >= normFuzzy(matches[j].Score)
 //@   invariant forall k int :: 0 <= k && k < len(results) ==> results[k].Score <= 1.0 && (options.FuzzyThreshold != 0 ==> results[k].Score >= normFuzzy(options.FuzzyThreshold))
 //@   invariant[C07.raw-threshold] options.FuzzyThreshold != 0 ==> (forall k int :: 0 <= k && k < len(results) ==> (exists j int :: 0 <= j && j < $i && matches[j].Index == cmdIdx(db, results[k].Command) && matches[j].Score >= options.FuzzyThreshold))
+//@   invariant[C07.none-skipped] options.FuzzyThreshold == 0 && len(results) == 0 ==> (forall j int :: 0 <= j && j < $i ==> !(platOK(&db.Commands[matches[j].Index], options) && pipeOK(&db.Commands[matches[j].Index], options)))
 
 // ---------------------------------------------------------------------------
 // SearchUniversal
